@@ -103,6 +103,7 @@ JOBS["C19"] = [
 JOBS["C14"] = [
     H("dkgservice", "dkgnet", "^TestC14DKGService$", {"shards": 6, "checks": 8, "timeout": 1500}, {"shards": 14, "checks": 150, "timeout": 3400}),
     I("daemon", "internal/core", "^TestVerifC14Requests$", {"shards": 8, "checks": 10, "timeout": 1500}, {"shards": 14, "checks": 200, "timeout": 3400}, crash_is_violation=True),
+    H("partialflood", "beaconnet", "^TestC14PartialFlood$", {"shards": 6, "checks": 3, "timeout": 1500}, {"shards": 14, "checks": 60, "timeout": 3400}, crash_is_violation=True),
 ]
 
 JOBS["C15"] = [
@@ -111,7 +112,7 @@ JOBS["C15"] = [
 ]
 
 JOBS["C13"] = [
-    I("crashpoints", "internal/core", "^TestVerifC13CrashPoints$", {"shards": 4, "checks": 1, "timeout": 1500}, {"shards": 12, "checks": 6, "timeout": 3400}),
+    I("crashpoints", "internal/core", "^TestVerifC13CrashPoints$", {"shards": 6, "checks": 1, "timeout": 1500}, {"shards": 12, "checks": 6, "timeout": 3400}),
 ]
 
 LEVELS = {"C13": "fault_enumeration"}
@@ -121,9 +122,9 @@ _MACHINE = ("rapid state machine over a network of real beacon handlers: scheme 
             "forged partial injection (12 kinds incl. valid-for-clock+k), scripted lying sync peer (13 kinds), sync-stream tap. ")
 RULES = {
     "C13": "three real daemons (in-package, loopback gRPC, bolt stores, file key stores, verif hooks on) run a script: first DKG through the control API, 4 rounds, (2/3 of the cases and always shard 0) a resharing and the rounds across its transition. "
-           "Drawn per case: scheme, threshold, which node is the node under test (leader or follower). Every persistence point of that node (key.Save begin/created/end for group and share file, DKG store save/SaveFinished begin/end, chain Put begin/end; all persistence "
+           "Drawn per case: scheme, threshold, which node is the node under test (leader or follower), and a schedule perturbation: one kind of persistence operation of that node (DKG completion record, DKG record, key file, chain Put, or none) starts 60/250 ms late so that whatever runs concurrently gets ahead (first case of shard k uses kind k). Every persistence point of that node (key.Save begin/created/end for group and share file, DKG store save/SaveFinished begin/end, chain Put begin/end; all persistence "
            "in the process serialised between begin and end by the hook) yields a crash image = copy of its folder; for every in-place file write two torn images (prefix of the new content) are synthesised. Every image is restarted: (a) a fresh daemon loads it without error or panic, "
-           "(b) dkg.db decodes and its finished record is one whole epoch (Complete, group and share of one key), (c) group file and share file decode and are exactly the group and share of the epoch dkg.db records as completed (none if it records none), "
+           "(b) dkg.db decodes and its finished record is one whole epoch (Complete, group and share of one key) and a current record that says Complete is that same epoch, (c) group file and share file decode and are exactly the group and share of the epoch dkg.db records as completed (none if it records none), "
            "(d) the chain store scans gap-free from 0, every beacon verifies under the group key, and holds every round the node had served before the snapshot, (e) after three periods of clock time no fatal event. "
            "All images of a case are examined (fault enumeration over the persistence points of the script); non-trivial: every image; distinct by case + image index + crash window.",
     "C15": "(dkg) real dkg.Process instances run a key generation (n in 2..4, 5 schemes) and optionally a resharing on the in-memory bus; every gossip and bundle message (marshalled protobuf), every DKG status answer and every log line at debug level is scanned. "
@@ -135,7 +136,7 @@ RULES = {
            "(Protocol.GetIdentity/PartialBeacon/SyncChain/Status, Public.PublicRand/PublicRandStream/ChainInfo/ListBeaconIDs, DKGPublic.Packet/BroadcastDKG) are built from the protobuf descriptors by reflection: every field independently absent / zero / typical / hostile "
            "(known and unknown ids and hashes, 0/1/47/48/49/96/98/65536-byte strings, valid partial / key / signature bytes optionally bit-flipped, 0, 1, head, head+1, 2^32, 2^64-1), nested messages nil / empty / filled, every oneof arm or none, lists of 0-3; half of the requests "
            "structurally complete with known ids so that they pass early validation; HTTP paths incl. malformed rounds and hashes. (service depth) real dkg.Process objects in states fresh / complete / mid-proposal / after an execution receive generated gossip and broadcast packets "
-           "and floods of distinct bundles carrying a valid group-member signature, with the containment of the recovery interceptor. Oracle: every request is answered (value or error) within its endpoint bound (5 s; next-round waits are released by advancing the fake clock), "
+           "and floods of distinct bundles carrying a valid group-member signature, with the containment of the recovery interceptor. (flood depth) on a network of 3-5 real beacon handlers one member sends 95..450 correctly signed partials over distinct previous signatures (one round or the aggregated and the next round) to a victim before / between / after the honest partials of the round: 'sequences' long enough to cross the per-signer bounds of the partial cache; afterwards every node must store that round and the next three. Oracle: every request is answered (value or error) within its endpoint bound (5 s; next-round waits are released by advancing the fake clock), "
            "no fatal log event, afterwards valid probes succeed on every service (ChainInfo, PublicRand, GetIdentity, a DKG packet, an operator command, HTTP /info), a tick still produces the next beacon, and the DKG process shuts down. "
            "Non-trivial: at least one request reached a service implementation; distinct by the rendered request sequence.",
     "C19": "a real DrandDaemon (in-package) hosting 2-3 single-member chains with ids from {default, a, b}, each with its own key and a drawn scheme, optionally one loaded-but-ungrouped id, bolt or memdb storage; started from files written by the harness (migration path), "
